@@ -491,12 +491,6 @@ Proof.
 Qed.
 
 (* 1-character separators: separator-free segments suffice *)
-Definition sepfree_tmap (sep : pystr) (cs : tmap) : bool :=
-  forallb (fun e => match e with
-                    | FEll => true
-                    | FE _ p _ => forallb (fun seg => negb (infix sep seg)) p
-                    end) (flatten_m cs).
-
 Lemma sepfree_unambiguous_tmap c cs : sepfree_tmap [c] cs = true -> unambiguous_tmap [c] cs = true.
 Proof.
   unfold sepfree_tmap, unambiguous_tmap. rewrite !forallb_forall. intros H e He.
